@@ -323,7 +323,11 @@ COMPACT = """<fix major='4' type='FIX' servicepack='0' minor='4'>
    <component name='Instrument' required='Y'/>
    <group name='NoLegs' required='N'>
      <field name='LegSymbol' required='Y'/><field name='LegQty' required='N'/>
-     <group name='NoNested' required='N'><field name='NestedID' required='N'/><field name='NestedFlag' required='N'/></group>
+     <group name='NoNested' required='N'><field name='NestedID' required='N'/><field name='NestedFlag' required='N'/>
+       <group name='NoDeep' required='N'><field name='DeepID' required='Y'/><field name='DeepQty' required='N'/>
+         <group name='NoDeeper' required='N'><field name='DeeperID' required='N'/></group>
+       </group>
+     </group>
    </group>
    <field name='Side' required='N'/><field name='TransactTime' required='N'/>
   </message>
@@ -348,7 +352,8 @@ COMPACT = """<fix major='4' type='FIX' servicepack='0' minor='4'>
   <field number='93' name='SignatureLength' type='LENGTH'/><field number='89' name='Signature' type='DATA'/>
   <field number='11' name='ClOrdID' type='STRING'/><field number='44' name='Price' type='PRICE'/><field number='38' name='OrderQty' type='QTY'/>
   <field number='555' name='NoLegs' type='NUMINGROUP'/><field number='600' name='LegSymbol' type='STRING'/><field number='687' name='LegQty' type='QTY'/>
-  <field number='539' name='NoNested' type='NUMINGROUP'/><field number='524' name='NestedID' type='STRING'/><field number='525' name='NestedFlag' type='BOOLEAN'/>
+  <field number='539' name='NoNested' type='NUMINGROUP'/><field number='1201' name='NoDeep' type='NUMINGROUP'/><field number='1202' name='DeepID' type='STRING'/><field number='1203' name='DeepQty' type='QTY'/>
+  <field number='1204' name='NoDeeper' type='NUMINGROUP'/><field number='1205' name='DeeperID' type='INT'/><field number='524' name='NestedID' type='STRING'/><field number='525' name='NestedFlag' type='BOOLEAN'/>
   <field number='54' name='Side' type='CHAR'><value enum='1' description='BUY'/><value enum='2' description='SELL'/></field>
   <field number='60' name='TransactTime' type='UTCTIMESTAMP'/>
   <field number='58' name='Text' type='STRING'/><field number='96' name='RawBlob' type='RAWDATA'/><field number='61' name='Urgent' type='BOOLEAN'/>
@@ -508,11 +513,28 @@ def mutations(base, label, sites="all"):
                     t2.set("cast", "String")
             out.append(Variant("%s/type-map-pipeline BOOLEAN->String" % label, s))
             break
-    # duplicate field number / duplicate message type: must be rejected
-    s = b.clone()
-    fl = list(s.fields().values())
-    fl[-1].set("number", fl[-2].get("number"))
-    out.append(Variant("%s/duplicate-field-number" % label, s, expect_reject=True))
+    # duplicate field number (every kind pair: plain/plain, enum/enum, plain/enum, enum/plain; adjacent and far
+    # apart) / duplicate message type: must be rejected
+    fl0 = list(b.fields().values())
+    cast = b.cast()
+    isenum = lambda f: bool(f.findall("value")) and cast.get(f.get("type")) != "Bool"
+    plains = [i for i, f in enumerate(fl0) if not isenum(f) and f.get("name") not in EXCLUDED]
+    enums = [i for i, f in enumerate(fl0) if isenum(f)]
+    pairs = [("plain-plain-adjacent", len(fl0) - 1, len(fl0) - 2)]
+    if len(plains) > 3:
+        pairs.append(("plain-plain-far", plains[-1], plains[1]))
+    if len(enums) > 1:
+        pairs.append(("enum-enum", enums[-1], enums[0]))
+    if enums and plains:
+        pairs.append(("enum-takes-number-of-plain", enums[0], plains[len(plains) // 2]))
+        pairs.append(("plain-takes-number-of-enum", plains[len(plains) // 2], enums[-1]))
+    for nm, i, j in pairs:
+        if i == j:
+            continue
+        s = b.clone()
+        fl = list(s.fields().values())
+        fl[i].set("number", fl[j].get("number"))
+        out.append(Variant("%s/duplicate-field-number %s" % (label, nm), s, expect_reject=True))
     s = b.clone()
     ms = s.messages()
     if len(ms) > 1:
